@@ -272,7 +272,7 @@ namespace hv
                     for (auto &d : split(st.tok[1], ',')) if (!d.empty()) cfg.tape.push_back(std::stoll(d));
             }
             else if (k == "emit_tape") cfg.record_tape = true;
-            else if (k == "instr") cfg.instr_interval = std::stoi(st.tok.at(1));   // instrumented build: extra pre-emption points
+            else if (k == "instr") { cfg.instr_interval = std::stoi(st.tok.at(1)); cfg.instr_target_mod = static_cast<int>(st.geti("target", 0)); cfg.instr_target_cap = static_cast<int>(st.geti("cap", 20000)); }   // instrumented build: extra pre-emption points
             else if (k == "maxsteps") cfg.max_steps = std::stoll(st.tok.at(1));
         }
         g_start_wall = cfg.start_wall_us;
